@@ -325,6 +325,9 @@ func (w *World) onApplied(n *Node, e *blockEntry, au consensus.ApplyUpdate, firs
 			report("v2contract", d.V2FileContractElement.ID, d.V2FileContractElement.StateElement)
 		}
 	}
+	if w.cfg.Profile == "C05" && first && w.tape.Choose(3) == 0 {
+		w.tallForestProbe(e.state)
+	}
 	w.lightsApplied(n, e, au)
 	w.extrasApplied(n, e, au, first)
 }
